@@ -7,6 +7,7 @@
 -/
 import AgeModel.Bech32
 import AgeModel.Extracted.Consts
+import Proofs.GoTieCodec
 namespace AgeModel
 namespace Tie.C09
 open Bech32
@@ -24,6 +25,75 @@ theorem generator_length : Extracted.bech32Generator.length = 5 := by decide
 /-- the model's unrolled checksum step IS the loop over the extracted generator table -/
 theorem generator_tie (chk : Nat) (v : UInt8) : polymodStep chk v = polymodStepG Extracted.bech32Generator chk v := by
   rfl
+
+
+/-! ## The code itself (DESIGN.md §5.3)
+
+`Extracted/Funcs.lean` is a statement-by-statement TRANSLATION of
+internal/bech32/bech32.go and plugin/encode.go, regenerated from /repo on every
+run. The theorems below say that, for ALL inputs, what that code computes is
+what the hand-written model computes — so every theorem of Props/C09 about
+`Bech32.decode`, `Bech32.encode`, `Keys.parse*`, `Keys.encode*` is a theorem about
+the functions as they stand in the source now. -/
+
+open Extracted in
+theorem polymod_tie (vs : Bytes) : bech32_polymod vs = .ok (UInt32.ofNat (Bech32.polymod vs)) :=
+  GoTie.polymod_tie vs
+
+open Extracted in
+theorem createChecksum_tie (hrp data : Bytes) (h : Go.isAscii hrp = true) :
+    bech32_createChecksum hrp data = .ok (Bech32.createChecksum hrp data) :=
+  GoTie.createChecksum_tie hrp data h
+
+open Extracted in
+theorem verifyChecksum_tie (hrp data : Bytes) (h : Go.isAscii hrp = true) :
+    bech32_verifyChecksum hrp data = .ok (Bech32.verifyChecksum hrp data) :=
+  GoTie.verifyChecksum_tie hrp data h
+
+open Extracted in
+theorem convertBits_tie_8_5 (data : Bytes) :
+    bech32_convertBits data 8 5 true = GoTie.cbRes (Bech32.convertBits data 8 5 true) :=
+  GoTie.convertBits_tie_8_5 data
+
+open Extracted in
+theorem convertBits_tie_5_8 (data : Bytes) :
+    bech32_convertBits data 5 8 false = GoTie.cbRes (Bech32.convertBits data 5 8 false) :=
+  GoTie.convertBits_tie_5_8 data
+
+/-- `bech32.Decode`, for EVERY byte string (non-ASCII and invalid UTF-8 included):
+    the model's result, value or error class -/
+theorem decode_tie (s : Bytes) :
+    Extracted.bech32_Decode s = .ok (match Bech32.decode s with
+      | .ok (h, d) => (h, d, none)
+      | .error e => ([], [], GoTie.decErr e)) :=
+  GoTie.decode_tie s
+
+/-- `bech32.Encode`; in particular it never faults (the `charset[p]` index is always in range) -/
+theorem encode_tie (hrp data : Bytes) :
+    Extracted.bech32_Encode hrp data = .ok (match Bech32.encode hrp data with
+      | .ok s => (s, none)
+      | .error e => ([], GoTie.encErr e)) :=
+  GoTie.encode_tie hrp data
+
+theorem encodeIdentity_tie (name data : Bytes) :
+    Extracted.plugin_EncodeIdentity name data = .ok (Keys.encodeIdentity name data) :=
+  GoTie.encodeIdentity_tie name data
+
+theorem encodeRecipient_tie (name data : Bytes) :
+    Extracted.plugin_EncodeRecipient name data = .ok (Keys.encodeRecipient name data) :=
+  GoTie.encodeRecipient_tie name data
+
+theorem parseIdentity_tie (s : Bytes) :
+    Extracted.plugin_ParseIdentity s = .ok (match Keys.parseIdentity s with
+      | .ok (n, d) => (n, d, none)
+      | .error e => ([], [], GoTie.parseIdErr e)) :=
+  GoTie.parseIdentity_tie s
+
+theorem parseRecipient_tie (s : Bytes) :
+    Extracted.plugin_ParseRecipient s = .ok (match Keys.parseRecipient s with
+      | .ok (n, d) => (n, d, none)
+      | .error e => ([], [], GoTie.parseRcErr e)) :=
+  GoTie.parseRecipient_tie s
 
 end Tie.C09
 end AgeModel
